@@ -163,6 +163,50 @@ func ruleC14(p *Prog, r *Result) {
 		}
 		return true, ""
 	})
+	// --- flatten: one level of nesting is dissolved, whatever the nested list holds (also nothing)
+	pr.all("flatten splices the entries of every nested list into the result and keeps every other entry as it is", selectPaths(byT["flatten"], func(pa *Path) bool {
+		return pa.End == "iter" && guardPol(pa, "itermore", mOp("range", objP), nil) == 1
+	}), "list entry -> its entries (possibly none); anything else -> the entry", func(pa *Path) (bool, string) {
+		el := mElemOf(objP)
+		isList := guardPol(pa, "kind", TM(el), "list")
+		var upd *T
+		for _, v := range pa.Carried {
+			if v.Op == "append" {
+				upd = v
+			}
+		}
+		if upd == nil {
+			if isList == 1 {
+				return false, "a nested list contributes nothing at all, not even its entries"
+			}
+			return false, "an entry is dropped"
+		}
+		// unwrap nested appends: collect what is added, in order
+		var added []*T
+		for t := upd; t != nil && t.Op == "append" && len(t.Args) == 2; t = t.Args[0] {
+			added = append([]*T{t.Args[1]}, added...)
+		}
+		switch isList {
+		case 1:
+			for _, a := range added {
+				if a.Op == "lit" {
+					return false, "a nested list is kept as an entry of the result instead of being dissolved (an empty nested list leaves [] behind)"
+				}
+				if !el(a) {
+					return false, "what is spliced in is not the nested list's entries: " + truncate(a.String(), 60)
+				}
+			}
+			return true, ""
+		case -1:
+			for _, a := range added {
+				if a.Op == "lit" && len(a.Args) == 1 && el(a.Args[0]) {
+					return true, ""
+				}
+			}
+			return false, "an entry that is not a list is not kept as it is"
+		}
+		return false, "whether the entry is a list is not tested"
+	})
 	// --- flags
 	pr.all("flags is tolist:= followed by prefix:--", selectPaths(byT["flags"], func(pa *Path) bool { return pa.End == "return" && !isFailure2(pa) }), "process2EncodeAny(obj, [\"tolist:=\", \"prefix:--\"])", func(pa *Path) (bool, string) {
 		for _, e := range pa.Effects {
@@ -455,7 +499,7 @@ func ruleC12Loops(p *Prog, r *Result) {
 		okBound := false
 		switch b := l.bound.(type) {
 		case *ssa.Parameter:
-			okBound = b.Name() == "count"
+			okBound = p.ParamName(b) == "count"
 		default:
 			okBound = intOfParam(p, l.bound, "r", 0)
 		}
@@ -482,7 +526,7 @@ func ruleC12Loops(p *Prog, r *Result) {
 								case *ssa.Const:
 									keyOK = s.varKey != "" && k.Value != nil && strings.Trim(k.Value.ExactString(), `"`) == s.varKey
 								case *ssa.Parameter:
-									keyOK = s.varKey == "" && k.Name() == "name"
+									keyOK = s.varKey == "" && p.ParamName(k) == "name"
 								}
 								if keyOK {
 									okBind = true
@@ -914,7 +958,7 @@ func intOfParam(p *Prog, v ssa.Value, name string, depth int) bool {
 	switch t := ex.Tuple.(type) {
 	case *ssa.TypeAssert:
 		par, ok := t.X.(*ssa.Parameter)
-		return ok && par.Name() == name && t.AssertedType.String() == "int"
+		return ok && p.ParamName(par) == name && t.AssertedType.String() == "int"
 	case *ssa.Call:
 		callee := t.Call.StaticCallee()
 		if callee == nil || !p.InRepo(callee) || len(callee.Blocks) == 0 {
@@ -923,8 +967,8 @@ func intOfParam(p *Prog, v ssa.Value, name string, depth int) bool {
 		// which callee parameter receives our parameter?
 		inner := ""
 		for i, a := range t.Call.Args {
-			if par, ok := a.(*ssa.Parameter); ok && par.Name() == name && i < len(callee.Params) {
-				inner = callee.Params[i].Name()
+			if par, ok := a.(*ssa.Parameter); ok && p.ParamName(par) == name && i < len(callee.Params) {
+				inner = p.ParamName(callee.Params[i])
 			}
 		}
 		if inner == "" {
